@@ -301,10 +301,14 @@ Definition hidden_walk_fn (hs : list str) (self : fsapi) (dirs : list str) (path
       else a_remove self path ;;; ret dirs
   end.
 
+(** errors.Is(err, fs.ErrNotExist): ENOENT (and the hidden not-exist error), not ENOTDIR *)
+Definition is_enoent (e : errno) : bool :=
+  match e with ENOENT | ELayer EHiddenNotExist => true | _ => false end.
+
 Definition hidden_removeall (hs : list str) (b self : fsapi) (name : str) : M unit :=
   r <- try_ (a_lstat self name) ;;
   match r with
-  | Err e => if is_not_found e then ret tt else fail e
+  | Err e => if is_enoent e then ret tt else fail e
   | Ok fi =>
       if negb (is_dir_info fi) then a_remove self name
       else
